@@ -334,3 +334,48 @@ func VerifH_C20_set_ops() {
 	all["zz"] = NULL
 	verif.Assert(s.Len() == n, "All returns a copy")
 }
+
+// resultProbe: a slice RETURNED by the container must not share storage with it: a later
+// Push must not change the returned slice, and writing to the returned slice (including its
+// spare capacity) must not change the container.
+func resultProbe(s *Slice[int], res []int, what string) {
+	saved := append([]int(nil), res...)
+	s.Push(4242, 4343)
+	sameInts(res, saved, what+": a later Push does not change a slice returned earlier")
+	cont := s.All()
+	full := res[:cap(res)]
+	for i := range full {
+		full[i] = full[i] ^ 0x3c3c
+	}
+	sameInts(s.All(), cont, what+": writing to a returned slice does not change the container")
+}
+
+func VerifH_C20_slice_results_independent() {
+	s, ref := c20State(3)
+	a, b := int(verif.Int64()), int(verif.Int64())
+	switch verif.Choose(6) {
+	case 0:
+		res, err := s.Splice(a, b)
+		if err == nil {
+			resultProbe(s, res, "Splice")
+		}
+	case 1:
+		hit := int(verif.Int64())
+		res, err := s.RangeAndSplice(func(_ int, i int) (bool, int, int, []int) { return i == hit, a, b, nil })
+		if err == nil && res != nil {
+			resultProbe(s, res, "RangeAndSplice")
+		}
+	case 2:
+		res, err := s.Slice(a, b)
+		if err == nil {
+			resultProbe(s, res, "Slice")
+		}
+	case 3:
+		resultProbe(s, s.All(), "All")
+	case 4:
+		resultProbe(s, s.AllAndClear(), "AllAndClear")
+	case 5:
+		resultProbe(s, s.Filter(func(v int) bool { return v < a }), "Filter")
+	}
+	_ = ref
+}
